@@ -161,6 +161,8 @@ type Config struct {
 	Remote *Remote
 	// AfterJob is called when a segment job has finished successfully, before the scheduler hears of it.
 	AfterJob func(unit stage.Unit)
+	// LateReads, when set, holds the squasher's racing reads of full-store snapshots (owned scheduler only)
+	LateReads *LateReads
 }
 
 type Request struct {
